@@ -18,7 +18,7 @@ LEVEL_NOTE = ("Trusted: Lean kernel; axioms propext/Classical.choice/Quot.sound;
               "(modelled, tied by differential correspondence only); numpy file I/O; dtype tags, save/load, from_dict and equals "
               "are correspondence-only facets.")
 TECHNIQUE = "Lean 4 proof of model = list-of-rows spec; model tied to code by differential correspondence"
-DESIGN_REF = "6.1"
+DESIGN_REF = "7"
 LEAN_MODULES = ["NpsVerif.Props.C01"]
 KERNELS = ()
 RULE = ("cases = (constructor kind: list-of-rows | flat+lengths (matching / mismatching) | geometry object) x "
